@@ -210,11 +210,12 @@ class MultipartDecoder:
                 self._search_position = max(0, len(self.buffer) - SEARCH_EXTRA_LENGTH)
 
         elif self.state == State.DATA_START:
-            data, del_index, more_data = self._parse_data(self.buffer, start=True)
-            del self.buffer[:del_index]
-            event = Data(data=data, more_data=more_data)
-            if more_data:
-                self.state = State.DATA
+            if not self._data_start_undecided():
+                data, del_index, more_data = self._parse_data(self.buffer, start=True)
+                del self.buffer[:del_index]
+                event = Data(data=data, more_data=more_data)
+                if more_data:
+                    self.state = State.DATA
 
         elif self.state == State.DATA:
             data, del_index, more_data = self._parse_data(self.buffer, start=False)
@@ -244,6 +245,27 @@ class MultipartDecoder:
                 name, _, value = line.decode().partition(":")
                 headers.append((name.strip(), value.strip()))
         return Headers(headers)
+
+    def _data_start_undecided(self) -> bool:
+        """The line break that starts a part's body also starts the next
+        boundary if the body is empty. While what follows it is still only
+        the beginning of a boundary, it can't be consumed as the start of
+        the body, more data is needed to decide.
+        """
+        match = LINE_BREAK_RE.match(self.buffer)
+        boundary = b"--" + self.boundary
+        rest = self.buffer[t.cast(t.Match[bytes], match).end() :]
+
+        if len(rest) < len(boundary):
+            return boundary.startswith(rest)
+
+        if not rest.startswith(boundary) or self.boundary_re.match(self.buffer):
+            return False
+
+        # The boundary is there but what must follow it, "--" or a line
+        # break after optional whitespace, is not complete yet.
+        tail = bytes(rest[len(boundary) :])
+        return tail == b"-" or not tail.strip(b" \t\f\v")
 
     def _parse_data(self, data: bytes, *, start: bool) -> tuple[bytes, int, bool]:
         # Body parts must start with CRLF (or CR or LF)
